@@ -76,3 +76,30 @@ pub fn free_interrupt<S: Src>(s: &mut S) {
     witness!(r.is_err(), "stack unmapped");
     std::mem::forget(c);
 }
+
+/// Peripheral side of "no guest program can panic the emulator": any byte sequence a guest can write to the 8-bit
+/// timer's control register (clock selects 4-7, which the emulator leaves unimplemented, included), followed by any
+/// peripheral update the run loop can issue, with arbitrary timer registers - no failed Kani check in `update_tcr`
+/// / `update_timer8_0` (division by zero, overflow, index).  Added after seed C15c (a zero prescaler divided by).
+pub fn free_timer_update<S: Src>(s: &mut S) {
+    let tcr1 = s.u8();
+    let tcr2 = s.u8();
+    let regs = [s.u8(), s.u8(), s.u8(), s.u8()];
+    let charge1 = s.u8();
+    let charge2 = s.u8();
+    // bound of the tick loop (unwinding): at most 16 states per update, i.e. two ticks at the fastest clock
+    s.assume(charge1 <= 16 && charge2 <= 16);
+    let mut cpu = crate::cpu::Cpu::new();
+    let r1 = cpu.bus.write(0xffff80, tcr1);
+    cpu.bus.io_registrs2[0x62] = regs[0]; // TCSR
+    cpu.bus.io_registrs2[0x64] = regs[1]; // TCORA
+    cpu.bus.io_registrs2[0x66] = regs[2]; // TCORB
+    cpu.bus.io_registrs2[0x68] = regs[3]; // TCNT
+    let u1 = cpu.vh_update_modules(charge1);
+    let r2 = cpu.bus.write(0xffff80, tcr2);
+    let u2 = cpu.vh_update_modules(charge2);
+    witness!(r1.is_ok() && r2.is_ok() && u1.is_ok() && u2.is_ok() && tcr1 & 7 == 5 && tcr2 & 7 == 1 && charge2 == 16, "unimplemented clock select, then an internal clock");
+    witness!(tcr1 & 7 == 1 && tcr2 & 7 == 6 && charge1 == 16, "internal clock, then an unimplemented select");
+    std::mem::forget(cpu);
+    verdict!("outcome" => r1.is_ok() && r2.is_ok());
+}
